@@ -43,6 +43,7 @@ def _fmt_items(fmt: str) -> int:
 def run(ch: Checker) -> None:
     prog = ch.prog
     ce = ConstEval(prog)
+    ch.rule('C16.9', 'build() returns the contents of a buffer it created in this call (io.BytesIO() / bytearray() / b\'\'), not of an object kept on the instance: a recycled frame object must not emit bytes of the frame it built before', 1)
     ch.rule('C16.1', 'every struct.pack/unpack in proxy/http/websocket with a literal (or table-driven) format: number of format items = number of values; '
                      'for unpack calcsize(format) = width of the slice passed and number of targets', 5)
     ch.rule('C16.2', 'encoder and decoder agree on the length classes: markers 126/127 carry 2/8 extension bytes on both sides; '
@@ -403,6 +404,27 @@ def run(ch: Checker) -> None:
             ch.bad('C16.6b', am, 'xor', blk)
     else:
         ch.bad('C16.6b', am, 'xor', shape)
+
+    # ---------------- C16.9 output buffer is per call
+    bad9 = None
+    n9 = 0
+    for p in fpaths(gb):
+        if p.exit_kind != 'return':
+            continue
+        sym = Sym(p)
+        last_i, last = p.stmts()[-1]
+        if not (isinstance(last, ast.Return) and last.value is not None):
+            continue
+        n9 += 1
+        rv = sym.value(last.value, last_i)
+        src = rv.func.value if isinstance(rv, ast.Call) and isinstance(rv.func, ast.Attribute) and rv.func.attr in ('getvalue', 'getbuffer', 'tobytes') else rv
+        fresh = isinstance(src, ast.Call) and (attr_chain(src.func) or '') in ('io.BytesIO', 'BytesIO', 'bytearray', 'bytes') or isinstance(src, (ast.Constant, ast.BinOp, ast.JoinedStr))
+        if any(isinstance(x, ast.Attribute) and isinstance(x.value, ast.Name) and x.value.id in ('self', 'cls') and x.attr not in ('data', 'mask') for x in ast.walk(src)) and not fresh:
+            bad9 = ('build() returns the contents of %s, an object that outlives the call: after reset() a shorter frame built on the same object is followed by the stale tail of the previous one '
+                    '(seek(0) does not truncate)' % norm(src)[:60], p.describe(10))
+        elif not fresh:
+            bad9 = bad9 or None
+    ch.check(bad9 is None and n9 > 0, 'C16.9', build, 'output buffer per call', 'the returned bytes come from a buffer created in this call (%d path(s))' % n9, bad9[0] if bad9 else 'no return path', witness=bad9[1] if bad9 else None)
 
     # ---------------- C16.8 field order on both sides
     n8 = 0
